@@ -208,6 +208,40 @@ Definition effective_scope (p : option policy) (declared : option pfx) (source :
       if b =? 0 then None else Some (mk_pfx (p_is4 d) (p_val d - p_val d mod 2 ^ (awidth (p_is4 d) - b)) b)
   end.
 
+(* what the authority declared, read off its option alone (no model function decides this):
+   nothing / SCOPE 0; a scope (a SCOPE longer than the family's addresses means the whole address:
+   like any scope longer than what was forwarded it is cut down by effective_scope); or a non-zero
+   SCOPE that cannot be interpreted (another family than its address, unusable address, unknown
+   family) — the answer is tailored to somebody, but nobody can say to whom *)
+Inductive declared_scope := DNone | DScope (p : pfx) | DUnusable.
+Definition spec_declared (opts : option (list eopt)) : declared_scope :=
+  match opts with
+  | None => DNone
+  | Some l =>
+      match first_ecs l with
+      | None => DNone
+      | Some sub =>
+          if e_scope sub =? 0 then DNone else
+          match width_of_family (e_family sub), ip_to_addr (e_addr sub) with
+          | Some (is4, w), Some a =>
+              if Bool.eqb is4 (a_is4 a) then DScope (mk_pfx is4 (a_val a) (N.min (e_scope sub) w)) else DUnusable
+          | _, _ => DUnusable
+          end
+      end
+  end.
+(* audience of an answer fetched with forwarded source [source]: Some None = everyone,
+   Some (Some p) = clients inside p, None = the answer must not be kept for anybody else
+   (tolerated only when the forwarded source or the floor is /0) *)
+Definition spec_audience (p : option policy) (opts : option (list eopt)) (source : option pfx) : option (option pfx) :=
+  match spec_declared opts with
+  | DNone => Some None
+  | DScope d => Some (effective_scope p (Some d) source)
+  | DUnusable => match source with
+                 | Some s => if p_bits s =? 0 then Some None else None
+                 | None => Some None
+                 end
+  end.
+
 Fixpoint spec_ops (c : ccfg) (known : list ans_info) (ops : list (cop * obs)) : bool :=
   match ops with
   | [] => true
@@ -222,11 +256,11 @@ Fixpoint spec_ops (c : ccfg) (known : list ans_info) (ops : list (cop * obs)) : 
         | Some up, Some (sc, ttl) =>
             let up_rr := [ROpt (mk_optrr 0 (match up with Some e => [OEcs e] | None => [] end))] in
             let source := ecs_prefix up in
-            let declared := read_response_scope (u_opts (co_up o)) in
-            let eff := match up with Some _ => effective_scope pol declared source | None => None end in
+            let aud := match up with Some _ => spec_audience pol (u_opts (co_up o)) source | None => Some None end in
+            let eff := match aud with Some a => a | None => None end in
             upstream_ok pol client in_rr up_rr &&
             (ob_ans ob =? u_ans (co_up o)) &&
-            opfx_eqb sc eff &&
+            (match aud with Some a => opfx_eqb sc a | None => match sc with Some _ => true | None => false end end) &&
             (match sc with
              | Some s => (negb (0 <? c_ecs_max c)%Z || (ttl <=? c_ecs_max c)%Z) &&
                          (p_bits s <=? N.min (match source with Some x => p_bits x | None => 0 end) (floor_of pol (p_is4 s)))
@@ -252,9 +286,8 @@ Fixpoint spec_ops (c : ccfg) (known : list ans_info) (ops : list (cop * obs)) : 
                 (* only an entry everyone may see is ever refreshed; whatever the refresh stores
                    under that shared key must again be an answer for everyone *)
                 (match ai_eff k with None => true | Some _ => false end) &&
-                let declared := read_response_scope (u_opts (co_rf o)) in
-                let eff := match rfe with Some _ => effective_scope pol declared (ecs_prefix rfe) | None => None end in
-                (match eff with None => true | Some _ => false end) &&
+                let aud := match rfe with Some _ => spec_audience pol (u_opts (co_rf o)) (ecs_prefix rfe) | None => Some None end in
+                (match aud with Some None => true | _ => false end) &&
                 spec_ops c (mk_ans_info (u_ans (co_rf o)) (q_name (co_q o)) (q_cd (co_q o)) None :: known) r
             end
         end
